@@ -392,3 +392,115 @@ def extra_programs(pairs):
         for name, items in forms.items():
             yield Prog('X', f'X/{name}/{outer}/{inner}', 'scalar', items,
                        {'skeleton': name, 'outer': outer, 'inner': inner, 'ret': '-', 'rot': 0, 'size': 3})
+
+
+# ---------------------------------------------------------------------------
+# layer R: FPCore *texts* read directly (not produced by the FPy compiler).
+# function-level property set x body shape x inner annotation(s).  An inner
+# annotation may set only :precision, only :round, or both, and may sit two
+# deep (a partial one inside another partial one): what it does not set it
+# inherits -- from the enclosing annotation, the core's properties, or the
+# standard's defaults (binary64, nearestEven).
+
+R_FUNC_PROPS = {
+    'none': '',
+    'P32': ':precision binary32',
+    'Rz': ':round toZero',
+    'P32Rz': ':precision binary32 :round toZero',
+    'P16': ':precision binary16',
+    'Rp': ':round toPositive',
+    'P16Rp': ':precision binary16 :round toPositive',
+    'P32Rp': ':precision binary32 :round toPositive',
+    'P64Rn': ':precision binary64 :round toNegative',
+}
+R_ANN = {
+    'none': None,
+    'P16': ':precision binary16',
+    'P64': ':precision binary64',
+    'Rz': ':round toZero',
+    'Rp': ':round toPositive',
+    'Re': ':round nearestEven',
+    'P16Rz': ':precision binary16 :round toZero',
+    'P32Rn': ':precision binary32 :round toNegative',
+}
+# two-deep nestings (outer, inner): a partial annotation inside a partial one
+R_NESTED = [('P16', 'Rz'), ('Rz', 'P16'), ('P16', 'Rp'), ('Rp', 'P64'), ('P64', 'Rz'), ('Rz', 'Re'),
+            ('P16', 'P64'), ('Rp', 'Rz'), ('P16Rz', 'Re'), ('Rz', 'P32Rn')]
+
+
+def _ann(name, e):
+    a = R_ANN[name]
+    return e if a is None else f'(! {a} {e})'
+
+
+# shapes with one annotated position {A}: (name, template)
+R_SHAPES_1 = [
+    ('add', '{A:(+ x y)}'), ('sub', '{A:(- x y)}'), ('mul', '{A:(* x y)}'), ('div', '{A:(/ x 3)}'),
+    ('divxy', '{A:(/ x y)}'), ('sqrt', '{A:(sqrt (fabs x))}'), ('fma', '{A:(fma x y 1/3)}'),
+    ('inner-op', '(+ {A:(/ x y)} (* x y))'), ('outer-op', '{A:(+ (/ x y) (* x y))}'),
+    ('let-val', '(let ([a {A:(/ x y)}]) (* a y))'), ('let-body', '(let ([a (/ x y)]) {A:(* a x)})'),
+    ('let-whole', '{A:(let ([a (/ x y)]) (* a x))}'),
+    ('if-arm', '(if (< x y) {A:(/ x y)} (- x 1/3))'), ('if-cond', '(if {A:(< (/ x 3) (* y 1/3))} (/ x y) (* x y))'),
+    ('if-whole', '{A:(if (< x y) (/ x y) (* x 1/3))}'),
+    ('while-update', '(while (< i 3) ([i 0 (+ i 1)] [a x {A:(/ a 3)}]) (* a y))'),
+    ('while-whole', '{A:(while (< i 3) ([i 0 (+ i 1)] [a x (+ (/ a 3) y)]) a)}'),
+    ('while-body', '(while (< i 2) ([i 0 (+ i 1)] [a x (/ a 3)]) {A:(* a y)})'),
+    ('literal', '(* x {A:0.1})'), ('cast', '{A:(cast (/ x 3))}'),
+]
+# shapes with an outer {A} and an inner {B} position
+R_SHAPES_2 = [
+    ('nest-op', '{A:(+ {B:(/ x y)} (* x y))}'),
+    ('nest-direct', '{A:{B:(/ x 3)}}'),
+    ('nest-let', '{A:(let ([a {B:(/ x y)}]) (* a 1/3))}'),
+    ('nest-if', '{A:(if (< x y) {B:(/ x y)} (* x 1/3))}'),
+    ('nest-while', '{A:(while (< i 3) ([i 0 (+ i 1)] [a x {B:(/ a 3)}]) (* a y))}'),
+]
+
+
+def _fill(template: str, anns: dict) -> str:
+    """replaces {A:expr} / {B:expr} (possibly nested) by the annotated expr"""
+    out = []
+    i = 0
+    while i < len(template):
+        c = template[i]
+        if c == '{' and template[i + 2] == ':':
+            slot = template[i + 1]
+            depth, j = 1, i + 3
+            while depth:
+                if template[j] == '{':
+                    depth += 1
+                elif template[j] == '}':
+                    depth -= 1
+                j += 1
+            inner = _fill(template[i + 3:j - 1], anns)
+            out.append(_ann(anns[slot], inner))
+            i = j
+        else:
+            out.append(c)
+            i += 1
+    return ''.join(out)
+
+
+class Core:
+    __slots__ = ('key', 'text', 'tags')
+
+    def __init__(self, key, text, tags):
+        self.key = key
+        self.text = text
+        self.tags = tags
+
+
+def read_cores(func_sets, ann_names, nested_pairs):
+    for fname in func_sets:
+        fprops = R_FUNC_PROPS[fname]
+        head = '(FPCore (x y) ' + (fprops + ' ' if fprops else '')
+        for sname, tmpl in R_SHAPES_1:
+            for a in ann_names:
+                text = head + _fill(tmpl, {'A': a}) + ')'
+                yield Core(f'R/{fname}/{sname}/{a}', text,
+                           {'func': fname, 'shape': sname, 'ann': a, 'family': 'R', 'key': f'R/{fname}/{sname}/{a}'})
+        for sname, tmpl in R_SHAPES_2:
+            for a, b in nested_pairs:
+                text = head + _fill(tmpl, {'A': a, 'B': b}) + ')'
+                key = f'R/{fname}/{sname}/{a}>{b}'
+                yield Core(key, text, {'func': fname, 'shape': sname, 'ann': f'{a}>{b}', 'family': 'R', 'key': key})
